@@ -197,6 +197,9 @@ class Decoder(object):
         self.number_of_bits -= number_of_bits
 
     def peek_bit(self):
+        if self.number_of_bits == 0:
+            raise OutOfDataError(self.number_of_read_bits())
+
         return ((self.value >> (self.number_of_bits - 1)) & 1)
 
     def clear_bit(self):
